@@ -16,7 +16,7 @@ import sys
 import tempfile
 
 VERIF = os.path.dirname(os.path.dirname(os.path.abspath(__file__)))
-REPO = "/repo"
+REPO = os.environ.get("JBV_MUT_REPO", "/repo")
 
 
 def make_scratch():
